@@ -193,7 +193,7 @@ def handle (j : Json) : Except String Verdict := do
   let c16 := if hasPanic ser || hasPanic de || hasPanic via || hasPanic (get j "cross_out") || hasPanic (get j "fields_rt") then "fail" else "pass"
   -- records that are not the call stream of any `Serialize` implementation (a map value without its key, …) are
   -- outside the property's quantifier ("records as in C01/C02"); what the builders do with them is the build suite's
-  if (rows.map (interpRow ext fields)).any isMalformed then
+  if (rows.map (interpRow ext fields)).any isMalformed || rows.any containsMalformed then
     return { agree := true, spec := [("C19", "na"), ("C16", c16)], tags := ("malformed-stream" :: tags).eraseDups }
   -- the first failure of each kind
   let mut specSig := ""
